@@ -35,4 +35,16 @@ def k6(drv):
     return st == 'ok'
 
 
-WITNESSES = {'K1': k1, 'K2': k2, 'K3': k3, 'K6': k6}
+def k7(drv):
+    """exclude patterns are matched against absolute paths: a pattern that matches a directory ABOVE the input excludes the
+    whole input, so moving the tree under a directory called `build` changes the output"""
+    import s_tree as T
+    case = dict(inputs=[dict(kind='dir', name='proj', children=[dict(name='a.cmake', content='function(f)\nendfunction()\n')])],
+                settings=dict(recursive=False, auto_exclude=True), patterns=['build/'], output='abs')
+    with impl.Sandbox() as sb:
+        a = T.run_real(sb.dir, case, variant='a', loc='src')
+        b = T.run_real(sb.dir, case, variant='b', loc='build')
+    return a['files'] != b['files']
+
+
+WITNESSES = {'K1': k1, 'K2': k2, 'K3': k3, 'K6': k6, 'K7': k7}
